@@ -1,0 +1,38 @@
+//go:build verif
+
+package authenticode
+
+import "io"
+
+// Add-only test hooks for the /verif correspondence harness (format module fmtpe).
+// Thin exported wrappers around unexported functions and fields; no behaviour change.
+
+// VerifPEHeaderValues is an exported copy of peHeaderValues.
+type VerifPEHeaderValues struct {
+	PeStart, PosDDCert, SecTblStart, SizeOfHdr int64
+	PageSize, FileAlign                        uint32
+	CertStart, CertSize                        int64
+}
+
+func verifCopyHvals(h *peHeaderValues) *VerifPEHeaderValues {
+	if h == nil {
+		return nil
+	}
+	return &VerifPEHeaderValues{h.peStart, h.posDDCert, h.secTblStart, h.sizeOfHdr, h.pageSize, h.fileAlign, h.certStart, h.certSize}
+}
+
+// VerifFindSignatures calls findSignatures (the header walk VerifyPE uses to locate the certificate table).
+func VerifFindSignatures(r io.ReadSeeker) (*VerifPEHeaderValues, error) {
+	h, err := findSignatures(r)
+	return verifCopyHvals(h), err
+}
+
+// VerifMarkers returns the header values DigestPE recorded in the digest.
+func (pd *PEDigest) VerifMarkers() *VerifPEHeaderValues {
+	return verifCopyHvals(pd.markers)
+}
+
+// VerifCheckSignatures calls checkSignatures (certificate table walk + per-entry verification).
+func VerifCheckSignatures(blob []byte, image io.ReadSeeker) ([]PESignature, error) {
+	return checkSignatures(blob, image)
+}
